@@ -251,6 +251,38 @@ func lastSexp(p string) string {
 // discharge runs every obligation of the unit through the portfolio.
 func discharge(obls []*Obl, outDir string, secs int, par int) {
 	os.MkdirAll(outDir, 0o755)
+	// obligations split per return site: solve the parts, then aggregate
+	var flat []*Obl
+	for _, o := range obls {
+		if len(o.Subs) > 0 {
+			flat = append(flat, o.Subs...)
+		} else {
+			flat = append(flat, o)
+		}
+	}
+	dischargeFlat(flat, outDir, secs, par)
+	for _, o := range obls {
+		if len(o.Subs) == 0 {
+			continue
+		}
+		o.Status, o.Solver, o.Ms = "discharged", "", 0
+		for _, s := range o.Subs {
+			o.Ms += s.Ms
+			if o.Solver == "" || s.Solver != "syntactic" {
+				o.Solver = s.Solver
+			}
+			switch {
+			case s.Status == "failed" && o.Status != "failed":
+				o.Status, o.Model, o.Output, o.Reach, o.Goal, o.Solver = "failed", s.Model, s.Output, s.Reach, s.Goal, s.Solver
+			case s.Status != "discharged" && o.Status == "discharged":
+				o.Status, o.Output, o.Solver = "unknown", s.Output, s.Solver
+			}
+		}
+		o.Trivial = false
+	}
+}
+
+func dischargeFlat(obls []*Obl, outDir string, secs int, par int) {
 	var wg sync.WaitGroup
 	sem := make(chan struct{}, par)
 	for i, o := range obls {
